@@ -1,5 +1,5 @@
 (** C04 - Sender obeys flow control from any peer and always terminates (structural part). *)
-From IsoTp Require Import Base.Prelude Model.Micro Spec.ConfigSpec Proofs.Inv Proofs.FsmProps.
+From IsoTp Require Import Base.Prelude Model.Micro Spec.ConfigSpec Proofs.Inv Proofs.FsmProps Proofs.PacingP Proofs.BlockP.
 
 (** No wedge: in every reachable state an active transmitter is waiting with a running N_Bs
     deadline, or pacing Consecutive Frames with a running STmin timer and a known block size,
@@ -45,9 +45,25 @@ Theorem C04_block : forall c a s evs rbs,
   tx_state (tr_s (tx_cf c a s evs)) <> TxTransmitCF.
 Proof. exact cf_respects_blocksize. Qed.
 
+(** Run level.  [cts_accepted c s]: the flow-control part of the transmit pass taken in [s] accepts a
+    ContinueToSend; [cf_emitted c s = Some s3]: the pass emits a Consecutive Frame (built from [s3]);
+    ghost [g] = Consecutive Frames emitted since the most recently accepted ContinueToSend.
+    [within_grant c s g]: the frame this pass emits (if any) is within that grant - fewer than
+    max(1, blocksize) frames since the ContinueToSend, or block size 0 (no limit).  It holds for EVERY
+    pass of EVERY run of micro-steps from the initial state: whatever the peer sends (duplicate, early,
+    late ContinueToSend, Wait, Overflow, garbage) and whatever the schedule, the sender never emits
+    more Consecutive Frames than the last accepted ContinueToSend granted. *)
+Theorem C04_block_pass : forall c s g, B g s -> within_grant c s g /\ B (gpass c s g) (tr_s (process_tx c s)).
+Proof. exact tx_pass_block. Qed.
+
+Theorem C04_block_run : forall c t0 ms, granted c (init_layer c t0) 0 ms.
+Proof. exact granted_from_init. Qed.
+
 Print Assumptions C04_nowedge.
 Print Assumptions C04_overflow.
 Print Assumptions C04_wait0.
 Print Assumptions C04_wait_max.
 Print Assumptions C04_wait_ok.
 Print Assumptions C04_block.
+Print Assumptions C04_block_pass.
+Print Assumptions C04_block_run.
